@@ -52,7 +52,7 @@ META = {
     "soft_s": {"quick": 60, "thorough": 900},
     "exhaustive": {"quick": True, "thorough": True},
     "require": ["mutations_changed", "dirty_checks", "db_compares", "pickle_roundtrips", "merges", "reloads",
-                "composite_mutations", "seq_steps", "via_load", "via_refresh"],
+                "composite_mutations", "seq_steps", "via_load", "via_refresh", "hierarchy_mutations"],
     "assumptions": ["json / pickle decoding of the raw column value is the type's own representation on SQLite"],
 }
 
@@ -608,6 +608,89 @@ def composite_cases(env):
             sess.close()
 
 
+ARRIVALS = ("constructed", "load", "refresh", "expire", "pickle_reattach", "pickle_merge", "merge_noload")
+
+
+def hierarchy_cases(ctx):
+    """Mutable columns mapped on an ancestor: an instance of every class of a 4-level
+    single-table and joined-table hierarchy gets its value by construction, load,
+    refresh, expire+reload, unpickling and merge (load=True / False); then one in-place
+    mutation must be tracked and persisted."""
+    from sqlalchemy import orm
+    from vf.gen.ormrig_gk import c49_hierarchy, raw_rows, sqlite_engine
+
+    h = c49_hierarchy()
+    eng = sqlite_engine()
+    h["reg"].metadata.create_all(eng)
+    idx = 0
+    for prefix, classes in h["hier"].items():
+        tables = {"d": classes[0].__table__.name, "l": classes[1].__table__.name}
+        for depth, cls in enumerate(classes):
+            attrs = ["d"] + (["l"] if depth >= 1 else [])
+            for attr in attrs:
+                declared_at = 0 if attr == "d" else 1
+                for arrival in ARRIVALS:
+                    idx += 1
+                    if not ctx.mine(idx):
+                        continue
+                    init = {"n": 0} if attr == "d" else [0]
+                    sess = orm.Session(eng)
+                    obj = cls(**{attr: init})
+                    sess.add(obj)
+                    if arrival == "constructed":
+                        sess.flush()
+                    else:
+                        sess.commit()
+                        oid = obj.id
+                        if arrival == "load":
+                            sess.close()
+                            sess = orm.Session(eng)
+                            obj = sess.get(cls, oid)
+                        elif arrival == "refresh":
+                            sess.refresh(obj)
+                        elif arrival == "expire":
+                            sess.expire(obj)
+                        else:
+                            getattr(obj, attr)
+                            blob = pickle.dumps(obj)
+                            sess.close()
+                            det = pickle.loads(blob)
+                            ctx.count("pickle_roundtrips")
+                            sess = orm.Session(eng)
+                            if arrival == "pickle_reattach":
+                                sess.add(det)
+                                obj = det
+                            else:
+                                obj = sess.merge(det, load=(arrival == "pickle_merge"))
+                                ctx.count("merges")
+                                sess.flush()
+                    live = getattr(obj, attr)
+                    if attr == "d":
+                        live["k"] = 1
+                        model = {"n": 0, "k": 1}
+                    else:
+                        live.append(5)
+                        model = [0, 5]
+                    ctx.count("hierarchy_mutations")
+                    flagged = obj in sess.dirty and sess.is_modified(obj)
+                    sess.flush()
+                    raw = raw_rows(sess, "select %s from %s where id = ?" % (attr, tables[attr]), (obj.id,))[0][0]
+                    stored = json.loads(raw) if raw is not None else None
+                    ctx.count("db_compares")
+                    if stored != model or not flagged:
+                        ctx.violation(
+                            # one mechanism per distance from the mapping class (the arrival is in the witness)
+                            "mutable-column-not-tracked-on-%s" % (
+                                ["declaring-class", "direct-subclass", "deep-subclass"][min(depth - declared_at, 2)]),
+                            "%s.%s (column mapped on %s) after %s: database %r, memory %r, parent flagged dirty %s" % (
+                                cls.__name__, attr, classes[declared_at].__name__, arrival, stored, model, flagged),
+                            {"class": cls.__name__, "attr": attr, "arrival": arrival, "stored": stored, "memory": model})
+                    ctx.case({"hier": cls.__name__, "attr": attr, "arrival": arrival}, nontrivial=True)
+                    sess.rollback()
+                    sess.close()
+    eng.dispose()
+
+
 def negative_control(env):
     """nested plain containers are documented as untracked: show the monitor sees that."""
     ctx = env.ctx
@@ -646,6 +729,7 @@ def run(ctx):
                         single_case(env, attr, n, opname, A, form, via=("load" if (idx // ctx.nshards) % 2 else "refresh"))
                         if idx % 997 == 0:
                             ctx.sample({"attr": attr, "n": n, "op": opname, "args": desc_args(A), "form": form})
+    hierarchy_cases(ctx)
     if ctx.shard == 0:
         negative_control(env)
     if ctx.mine(1):
